@@ -20,6 +20,7 @@ func (lc *lineCalc) add(s string, prefix int) {
 			lc.lfs = append(lc.lfs, prefix+i)
 		}
 	}
+	verifEv("", "lfswrite", prefix, len(lc.lfs), lc)
 }
 
 // lineColAt gives (line, column) pair for a given position.
@@ -27,6 +28,7 @@ func (lc *lineCalc) add(s string, prefix int) {
 func (lc *lineCalc) lineColAt(pos int) (int, int) {
 
 	j := sort.SearchInts(lc.lfs, pos)
+	verifEv("", "lfsread", pos, j, lc)
 
 	if j == len(lc.lfs) {
 		if j == 0 {
